@@ -1,6 +1,11 @@
 """Per-property verification plans: which models TLC explores, which traces are recorded from the
 real code and validated, which TLC-generated vectors are replayed. See DESIGN.md section 6."""
+import os
+
 from vlib import model_check, record_and_validate, gen_and_replay, mkcfg, build_cli, gen_record_validate, proof_check
+
+
+TH = int(os.environ.get("VERIF_THOROUGH_SCALE", "5"))     # thorough tier: this many times the base number of recorded traces
 
 
 def bdd_jobs(ctx, mode, n, segments, length, nmax):
@@ -62,9 +67,9 @@ def C01(ctx):
     if ctx.quick:
         jobs = bdd_jobs(ctx, "c01", 8, 4, 200, 5)
     else:
-        jobs = bdd_jobs(ctx, "c01", 48, 5, 300, 5) + [
+        jobs = bdd_jobs(ctx, "c01", 48 * TH, 5, 300, 5) + [
             ("c01_n6_%d" % i, ["record", "bdd", "--mode", "c01", "--seed", ctx.seed * 1000 + 500 + i,
-                               "--segments", 3, "--len", 250, "--nmax", 6]) for i in range(16)]
+                               "--segments", 3, "--len", 250, "--nmax", 6]) for i in range(16 * TH)]
     record_and_validate(ctx, jobs, "TraceBdd", "TraceBdd_C01.cfg")
 
 
@@ -84,7 +89,7 @@ def C02(ctx):
     gen_and_replay(ctx, "GenTable", "GenTable.cfg" if ctx.quick else "GenTable_big.cfg", "table",
                    "all get_or_insert sequences of the bounded RobinHood model")
     # impl -> spec: random table histories with colliding hashes and tiny capacities
-    n = 4 if ctx.quick else 24
+    n = 4 if ctx.quick else 24 * TH
     record_and_validate(ctx, [("table_%d" % i, ["record", "table", "--byhash", "never", "--seed", ctx.seed * 1000 + i, "--segments", 25, "--len", 60])
                               for i in range(n)], "TraceTable", "TraceTable.cfg")
     # builder level: random programs with tiny unique tables
@@ -105,7 +110,7 @@ def C16(ctx):
     ite_key_checks(ctx)
     gen_and_replay(ctx, "GenLru", "GenLru.cfg" if ctx.quick else "GenLru_big.cfg", "lru",
                    "all insert/get sequences of the bounded Lru model")
-    n = 4 if ctx.quick else 24
+    n = 4 if ctx.quick else 24 * TH
     record_and_validate(ctx, [("lru_%d" % i, ["record", "lru", "--seed", ctx.seed * 1000 + i, "--segments", 30, "--len", 80])
                               for i in range(n)], "TraceLru", "TraceLru.cfg")
     # builder level: the same random programs under every cache configuration; every trace must be a
@@ -121,7 +126,7 @@ def _bdd_family(ctx, mode, cfg, nq=6, nt=40, segs=4, length=160, nmax=5):
     if ctx.quick:
         jobs = bdd_jobs(ctx, mode, nq, segs, length, nmax)
     else:
-        jobs = bdd_jobs(ctx, mode, nt, segs + 1, length + 80, nmax)
+        jobs = bdd_jobs(ctx, mode, nt * TH, segs + 1, length + 80, nmax)
     record_and_validate(ctx, jobs, "TraceBdd", cfg)
 
 
@@ -135,7 +140,7 @@ def _sdd_family(ctx, mode, cfg, nq=6, nt=40, segs=5, length=120, nmax=5):
     if ctx.quick:
         jobs = sdd_jobs(ctx, mode, nq, segs, length, nmax)
     else:
-        jobs = sdd_jobs(ctx, mode, nt, segs + 2, length + 60, nmax)
+        jobs = sdd_jobs(ctx, mode, nt * TH, segs + 2, length + 60, nmax)
     record_and_validate(ctx, jobs, "TraceSdd", cfg)
 
 
@@ -166,7 +171,7 @@ def C04(ctx):
     model_check(ctx, "RobinHood", "MC_RobinHood.cfg", "RobinHood (as repaired) refines SetTable: 5 keys, 4 hashes, cap 2->8", workers=6)
     gen_and_replay(ctx, "GenTable", "GenTable.cfg", "table", "all get_or_insert sequences of the bounded RobinHood model")
     record_and_validate(ctx, [("table_%d" % i, ["record", "table", "--byhash", "never", "--seed", ctx.seed * 1000 + 50 + i, "--segments", 25, "--len", 60])
-                              for i in range(3 if ctx.quick else 16)], "TraceTable", "TraceTable.cfg")
+                              for i in range(3 if ctx.quick else 16 * TH)], "TraceTable", "TraceTable.cfg")
     _sdd_family(ctx, "c04", "TraceSdd_C04.cfg", nq=10)
 
 
@@ -183,7 +188,7 @@ def C07(ctx):
     folds_model(ctx)
     _bdd_family(ctx, "c07", "TraceBdd_C07.cfg")
     _sdd_family(ctx, "c07", "TraceSdd_C07.cfg", nq=4, nt=24)
-    record_and_validate(ctx, td_jobs(ctx, 3 if ctx.quick else 16, 120), "TraceTopDown", "TraceTopDown_C07.cfg")
+    record_and_validate(ctx, td_jobs(ctx, 3 if ctx.quick else 16 * TH, 120), "TraceTopDown", "TraceTopDown_C07.cfg")
 
 
 ORDERS4 = ["1234", "3142", "4321", "2413"]
@@ -231,15 +236,15 @@ def C11(ctx):
     _bdd_family(ctx, "c11", "TraceBdd_C11.cfg")
     _sdd_family(ctx, "c11", "TraceSdd_C11.cfg", nq=3, nt=16)
     _sdd_family(ctx, "sem", "TraceSdd_C11.cfg", nq=4, nt=24)
-    record_and_validate(ctx, td_jobs(ctx, 3 if ctx.quick else 16, 150), "TraceTopDown", "TraceTopDown_C11.cfg")
+    record_and_validate(ctx, td_jobs(ctx, 3 if ctx.quick else 16 * TH, 150), "TraceTopDown", "TraceTopDown_C11.cfg")
     # one trace across representations: the same functions as BDDs (2 orders), SDDs (2 vtrees) and top-down d-DNNFs
     # (both stores), their negations included: the hash must be a function of the denotation, and 1 - hash for the negation
     record_and_validate(ctx, [("hashx_%d" % i, ["record", "hashx", "--seed", ctx.seed * 1000 + i, "--segments", 40 if ctx.quick else 100,
-                                                "--nmax", 4 + (i % 2)]) for i in range(3 if ctx.quick else 16)], "TraceSer", "TraceSer.cfg")
+                                                "--nmax", 4 + (i % 2)]) for i in range(3 if ctx.quick else 16 * TH)], "TraceSer", "TraceSer.cfg")
     # the hash-identified builders drive the unique table in equality-by-hash mode: the table must then be a set
     # keyed by the FULL 64-bit hash (RobinHood refines SetTable with ByHash = TRUE; wide hashes agreeing on 32 bits)
     model_check(ctx, "RobinHood", "MC_RobinHood_byhash.cfg", "RobinHood in equality-by-hash mode refines SetTable keyed by hash", workers=6)
-    n = 3 if ctx.quick else 16
+    n = 3 if ctx.quick else 16 * TH
     record_and_validate(ctx, [("table_bh_%d" % i, ["record", "table", "--byhash", "only", "--seed", ctx.seed * 1000 + i, "--segments", 25, "--len", 60])
                               for i in range(n)], "TraceTable", "TraceTable.cfg")
 
@@ -247,6 +252,18 @@ def C11(ctx):
 def C12(ctx):
     model_check(ctx, "MC_BranchBound", "MC_BranchBound_2.cfg", "marginal MAP branch and bound: bound is an upper bound and the search returns the optimum, "
                 "all 2-variable functions x query lists x weight grid (3600 configurations)", workers=4, timeout=900)
+    if not ctx.quick:
+        model_check(ctx, "MC_BranchBound", "MC_BranchBound_3.cfg", "the same for all 256 3-variable functions x 16 query lists x weight grids (1.56M states), order x1 < x2 < x0",
+                    workers=12, timeout=3400, xmx="8g")
+    # spec -> impl: for every function of 3 variables, every query list of >= 2 variables in every listing order and K grid
+    # weight vectors, TLC prints the score of every query assignment (the definition); marginal_map and bb must return the maximum
+    cfg = mkcfg(ctx, "GenMmap_3.cfg", "SPECIFICATION Spec\nCONSTANTS\n  NV = 3\n  PD = 1\n  Sample = 1\n  Seed = %d\n  K = %d\nCHECK_DEADLOCK FALSE\n" % (ctx.seed, 4 if ctx.quick else 48))
+    gen_and_replay(ctx, "GenMmap", cfg, "mmapvec", "marginal_map / bb on all 256 functions of 3 variables x 12 query lists x %d weight vectors" % (4 if ctx.quick else 48),
+                   extra_replay=["--nv", 3, "--seed", ctx.seed], timeout=1800)
+    cfg = mkcfg(ctx, "GenMmap_4.cfg", "SPECIFICATION Spec\nCONSTANTS\n  NV = 4\n  PD = 1\n  Sample = %d\n  Seed = %d\n  K = %d\nCHECK_DEADLOCK FALSE\n"
+                % (64 if ctx.quick else 8, ctx.seed % 8, 1 if ctx.quick else 6))
+    gen_and_replay(ctx, "GenMmap", cfg, "mmapvec", "marginal_map / bb on 1/%d of the functions of 4 variables x 48 query lists" % (64 if ctx.quick else 8),
+                   extra_replay=["--nv", 4, "--seed", ctx.seed], timeout=2400)
     ctx.assumptions += ["domain as stated in the property: probabilities k/8 summing to one off the query variables; MEU: "
                         "decision variables weigh (1,0), rewards >= 0 on the last variables of the order"]
     _bdd_family(ctx, "c12", "TraceBdd_C12.cfg")
@@ -268,7 +285,7 @@ def C09(ctx):
                 "INVARIANT Emit\nCHECK_DEADLOCK FALSE\n" % (4 if ctx.quick else 3, fam))
     gen_record_validate(ctx, "MC_GenWatched", cfg, "satvec", "all decide/pop behaviours of the bounded Watched model (%s)" % fam,
                         "TraceUnitProp", "TraceUnitProp.cfg", chunks=6 if ctx.quick else 16, extra=["--nv", 3], timeout=2400)
-    n = 6 if ctx.quick else 40
+    n = 6 if ctx.quick else 40 * TH
     segs = 40 if ctx.quick else 60
     # odd-numbered traces: clauses of 3..5 distinct variables and an adversarial driver that falsifies the open literals of
     # not-yet-satisfied clauses one by one (every clause is driven to unit through watched and unwatched literals alike)
@@ -292,7 +309,7 @@ def C06(ctx):
     model_check(ctx, "MC_TopDown", "MC_TopDown_all2.cfg", "all 676 two-clause CNFs over 3 variables x 6 orders", workers=8, timeout=1200)
     if not ctx.quick:
         model_check(ctx, "MC_TopDown", "MC_TopDown_all3.cfg", "all 10 400 three-clause CNFs over 3 variables x 6 orders", workers=16, timeout=3000, xmx="8g")
-    record_and_validate(ctx, td_jobs(ctx, 8 if ctx.quick else 40, 300 if ctx.quick else 500), "TraceTopDown", "TraceTopDown_C06.cfg")
+    record_and_validate(ctx, td_jobs(ctx, 8 if ctx.quick else 40 * TH, 300 if ctx.quick else 500), "TraceTopDown", "TraceTopDown_C06.cfg")
 
 
 def C15(ctx):
@@ -305,7 +322,7 @@ def C15(ctx):
         model_check(ctx, "MC_HasherAlgo", "MC_HasherAlgo_%s.cfg" % fam, "HasherAlgo: every push/decide/imply/pop history (<= 2 pushes), %s" % what, workers=6, timeout=900)
     model_check(ctx, "MC_HasherAlgo", "MC_HasherAlgo_perliteral.cfg", "regression: one prime per literal (not per occurrence) confuses regrouped residuals",
                 workers=2, expect_violation=True)
-    n = 4 if ctx.quick else 30
+    n = 4 if ctx.quick else 30 * TH
     record_and_validate(ctx, [("cnf_%d" % i, ["record", "cnf", "--seed", ctx.seed * 1000 + i, "--segments", 60 if ctx.quick else 120,
                                               "--nmax", 6 + (i % 3)]) for i in range(n)], "TraceCnf", "TraceCnf.cfg")
 
@@ -321,7 +338,7 @@ def C14(ctx):
     if not ctx.quick:
         model_check(ctx, "MC_DTreeAlgo", "MC_DTreeAlgo_4.cfg", "DTreeAlgo: 19 032 CNFs of <= 3 clauses over 4 variables x 24 orders", workers=12, timeout=1800)
         model_check(ctx, "MC_DTreeAlgo", "MC_DTreeAlgo_5.cfg", "DTreeAlgo: CNFs of <= 5 clauses (binary clauses, units, an empty clause) over 3 variables x 6 orders", workers=12, timeout=1800)
-    n = 4 if ctx.quick else 30
+    n = 4 if ctx.quick else 30 * TH
     record_and_validate(ctx, [("orders_%d" % i, ["record", "orders", "--seed", ctx.seed * 1000 + i, "--segments", 80 if ctx.quick else 150,
                                                  "--nmax", 4 + (i % 3)]) for i in range(n)], "TraceOrders", "TraceOrders.cfg")
 
@@ -331,7 +348,7 @@ def C13(ctx):
                         "finite-field products of the 64/96-bit primes are certified (a*b = q*P + r with r < P, checked by limb arithmetic in Bignum.tla), not recomputed",
                         "RationalSemiring: only naturals are reachable through the public API"]
     model_check(ctx, "MC_Semirings", "MC_Semirings.cfg", "the reference carriers obey the semiring / ring / lattice laws (exhaustive small grids)", workers=1, timeout=900)
-    n = 3 if ctx.quick else 12
+    n = 3 if ctx.quick else 12 * TH
     jobs = [("sr_%d" % i, ["record", "semiring", "--seed", ctx.seed * 1000 + i, "--segments", 300 if ctx.quick else 1200] + ([] if ctx.quick else ["--thorough"]))
             for i in range(n)]
     record_and_validate(ctx, jobs, "TraceSemiring", "TraceSemiring.cfg")
@@ -342,7 +359,7 @@ def C17(ctx):
                         "the serde JSON of the BDD/SDD/vtree serialisers is read by TLC itself",
                         "s-expression variable names come from a fixed list whose byte order is a constant of the specification; no True/False constants (todo!() in the parser's consumer)",
                         "DIMACS inputs have at least one variable and one clause and no empty clause for the expression parser (the code unwraps)"]
-    n = 4 if ctx.quick else 30
+    n = 4 if ctx.quick else 30 * TH
     record_and_validate(ctx, [("ser_%d" % i, ["record", "ser", "--seed", ctx.seed * 1000 + i, "--segments", 50 if ctx.quick else 120,
                                               "--nmax", 4 + (i % 2)]) for i in range(n)], "TraceSer", "TraceSer.cfg")
 
@@ -351,7 +368,7 @@ def C18(ctx):
     ctx.assumptions += ["the extern \"C\" symbols are linked from the rlib built with --features ffi and called with the C calling convention from the harness",
                         "domain: bdd_topvar / bdd_low / bdd_high on non-constant diagrams only (documented TODO in the code)",
                         "native reference for robdd_model_count = the composition it is documented to wrap (smooth over all variables + unit-weight count in the 64-bit field)"]
-    n = 6 if ctx.quick else 40
+    n = 6 if ctx.quick else 40 * TH
     record_and_validate(ctx, [("ffi_%d" % i, ["record", "ffi", "--seed", ctx.seed * 1000 + i, "--segments", 5, "--len", 150 if ctx.quick else 300,
                                               "--nmax", 4 + (i % 3)]) for i in range(n)], "TraceBdd", "TraceBdd_C18.cfg")
 
@@ -361,6 +378,6 @@ def C19(ctx):
                         "weights are k/8 (k <= 16): the printed shortest-round-trip decimal parses back to the exact f64; a configured order lists every variable",
                         "formula variables from a fixed name list whose byte order is a constant of the specification; single-count mode (no partial assignments)"]
     bindir = build_cli()
-    n = 4 if ctx.quick else 24
+    n = 4 if ctx.quick else 24 * TH
     record_and_validate(ctx, [("cli_%d" % i, ["record", "cli", "--seed", ctx.seed * 1000 + i, "--segments", 25 if ctx.quick else 60,
                                               "--bindir", bindir, "--work", ctx.work]) for i in range(n)], "TraceSer", "TraceSer.cfg")
